@@ -93,6 +93,9 @@ M.contract('xtuml.tools.OrderedSet.discard', [('self', OSET), ('key', KEY)], ret
            requires={'wf': 'wf(self)'},
            ensures={'wf-head': 'wf_head(self)', 'wf-cells-own': 'wf_cells_own(self)', 'wf-cells-links': 'wf_cells_links(self)', 'wf-cells-map': 'wf_cells_map(self)', 'wf-idx': 'wf_idx(self)', 'wf-ends': 'wf_ends(self)',
                     'view': 'self.view == (seq_without(old(self.view), old(self.idx[key])) if old(key in self.view) else old(self.view))',
+                    'view-client-form': 'self.view == seq_remove(old(self.view), key)',
+                    'removed-is-absent': 'key not in self.view',
+                    'other-members-kept': 'all(implies(v is not key, (v in self.view) == old(v in self.view)) for v in anyref("Class"))',
                     'ownership': 'foreign_cells_untouched(self)'},
            modifies=REP,
            ghost={'exit': [('self.view', 'seq_without(old(self.view), old(self.idx[key])) if old(key in self.map) else old(self.view)'),
@@ -156,6 +159,9 @@ M.contract('xtuml.meta.QuerySet.last', [('self', QSET)], returns=KEY, kind='prop
 M.contract('_collections_abc.MutableSet.remove', [('self', OSET), ('value', KEY)], returns=NONE,
            requires={'wf': 'wf(self)'},
            ensures={'wf': 'wf(self)', 'view': 'self.view == seq_without(old(self.view), old(self.idx[value]))',
+                    'view-client-form': 'self.view == seq_remove(old(self.view), value)',
+                    'removed-is-absent': 'value not in self.view',
+                    'other-members-kept': 'all(implies(v is not value, (v in self.view) == old(v in self.view)) for v in anyref("Class"))',
                     'ownership': 'foreign_cells_untouched(self)'},
            raises=[Raises('KeyError', when='value not in self.view')],
            modifies=REP)
